@@ -175,9 +175,10 @@ TEXT_LINES = [
   '<font color="#00ff0000">t</font><font color="blue">n</font>',
   '<font color="red">a<font color="#ffffff">w</font>b</font>',
   '<font color="blue"><b>k<font color="white">w</font></b></font>',
+  '<font color>v</font> <font>w</font>',
 ]
 
-_TOKEN = re.compile(r"<(/?)(b|i|u|bold|italic|underline|font)(?: color=\"([^\"]*)\")?>|\{(/?)(b|i|u|bold|italic|underline)\}", re.I)
+_TOKEN = re.compile(r"<(/?)(b|i|u|bold|italic|underline|font)(?: color(?:=\"([^\"]*)\")?)?>|\{(/?)(b|i|u|bold|italic|underline)\}", re.I)
 _CANON = {"b": "b", "bold": "b", "i": "i", "italic": "i", "u": "u", "underline": "u", "font": "font"}
 
 
@@ -253,9 +254,9 @@ class SrtStructureHarness(Harness):
                "srt.reader:_TextParser.handle_data")
   assumptions = ("file contents are selected by solver-decided selector variables from the line menu (no numeric symbol: a "
                  "solver-scheduled exhaustive enumeration of the bounded grammar)",)
-  outside = ("files with more than 2 cues or more than 2 text lines per cue; text lines outside the 14-entry menu",)
+  outside = ("files with more than 2 cues or more than 2 text lines per cue; text lines outside the 15-entry menu",)
   required_witnesses = ("two-cues", "crlf", "tags", "cue-without-text")
-  bounds = {"quick": "files of 1-2 cues: 0-1 leading blank lines, counter, time code, 0-2 text lines from an 14-entry menu (both tag "
+  bounds = {"quick": "files of 1-2 cues: 0-1 leading blank lines, counter, time code, 0-2 text lines from an 15-entry menu (both tag "
                      "syntaxes, nested, multi-line, stray end tag), 1-2 blank lines or EOF, LF or CRLF line ends",
             "thorough": "same with up to 3 text lines in the first cue"}
   budget_s = {"quick": 200, "thorough": 900}
